@@ -176,10 +176,17 @@ impl Grapheme {
     }
 }
 
+/// Is `s` exactly one escape sequence (`\\.`, `\\d`, `\\u{...}`) and nothing else?
+fn is_single_escape_sequence(s: &str) -> bool {
+    s.matches('\\').count() == 1
+        && s.starts_with('\\')
+        && (s.chars().count() == 2 || (s.starts_with("\\u{") && s.ends_with('}')))
+}
+
 impl Display for Grapheme {
     fn fmt(&self, f: &mut Formatter<'_>) -> Result {
         let is_single_char = self.char_count(false) == 1
-            || (self.chars.len() == 1 && self.chars[0].matches('\\').count() == 1);
+            || (self.chars.len() == 1 && is_single_escape_sequence(&self.chars[0]));
         let is_range = self.min < self.max;
         let is_repetition = self.min > 1;
         let mut value = if self.repetitions.is_empty() {
